@@ -146,12 +146,12 @@ def run(rep, tier, seed, replay):
             "the harness's own script assembly for the oracle (bitcoin::script::Builder, ScriptBuf::new_p2*, TaprootBuilder)"],
         "rule": "cases = 8 corner cases + seeded descriptors cycling through the 8 output types (bare, pkh, wpkh, sh, sh-wsh, sh-wpkh, wsh, tr) "
                 "x key forms (single compressed/uncompressed/x-only, with origin, xpub with path / wildcard / hardened step / hardened wildcard, "
-                "multipath 2-4 alternatives, xprv through parse_descriptor, mismatching tuple lengths) x indices {0,1,2^31-1,random,>=2^31} x 5 networks; "
+                "multipath 2-4 alternatives, xprv through parse_descriptor, mismatching tuple lengths, different xpubs sharing one origin text incl. the all-zero placeholder) x indices {0,1,2^31-1,random,>=2^31} x 5 networks; "
                 "every sortedmulti / sortedmulti_a with <= 5 keys under all listing orders; find_derivation_index_for_spk over 0..8 and over "
                 "ranges starting at 1, 3, 50, 2^31-5 (length 1/4/9, target first/last/inside/below/above)",
         "evaluations": judged + counters.get("derivations", 0) + counters.get("sortedmulti_orderings", 0)
                        + counters.get("split_alternatives_compared", 0) + counters.get("find_index_queries", 0)
-                       + counters.get("find_index_range_queries", 0),
+                       + counters.get("find_index_range_queries", 0) + counters.get("history_rederivations", 0),
         "distinct_nontrivial": counters.get("cases", 0),
         "cases_replayed_on_model_in_coq": coq_cases,
         "tie_differences": n_tie_diff,
